@@ -4,6 +4,7 @@ package malx
 // Written from the format specifications; no relic code is used.
 
 import (
+	"archive/zip"
 	"bytes"
 	"compress/zlib"
 	"crypto/sha1"
@@ -13,6 +14,7 @@ import (
 	"fmt"
 	"io"
 	"regexp"
+	"strings"
 )
 
 type Field struct {
@@ -88,6 +90,7 @@ func peFields(d []byte) []Field {
 		dd = opt + 112
 		ndd = opt + 108
 	}
+	f = append(f, Field{Name: "opt.sectionAlignment", Off: opt + 32, Size: 4}, Field{Name: "opt.fileAlignment", Off: opt + 36, Size: 4})
 	f = append(f, Field{Name: "opt.sizeOfHeaders", Off: opt + 60, Size: 4}, Field{Name: "opt.nDataDirs", Off: ndd, Size: 4},
 		Field{Name: "dd.certOffset", Off: dd + 32, Size: 4}, Field{Name: "dd.certSize", Off: dd + 36, Size: 4})
 	sec := opt + le16(d, p+20)
@@ -114,6 +117,7 @@ func cfbFields(d []byte) []Field {
 	}
 	dir := hdr + le32(d, 48)*ss
 	if dir >= 0 && dir+128 <= len(d) {
+		f = append(f, Field{Name: "dir.nameLen", Off: dir + 128 + 64, Size: 2})
 		f = append(f, Field{Name: "dir.left", Off: dir + 128 + 68, Size: 4}, Field{Name: "dir.child", Off: dir + 76, Size: 4},
 			Field{Name: "dir.rootStart", Off: dir + 116, Size: 4}, Field{Name: "dir.rootSize", Off: dir + 120, Size: 4})
 	}
@@ -177,6 +181,8 @@ func machoFields(d []byte) []Field {
 					f = append(f, Field{Name: "sb.blobOffset", Off: sb + 16, Size: 4, BE: true})
 					cd := sb + be32(d, sb+16)
 					if cd+44 <= len(d) && be32(d, cd) == 0xfade0c02 {
+						f = append(f, Field{Name: "cd.nSpecialSlots", Off: cd + 24, Size: 4, BE: true}, Field{Name: "cd.codeLimit", Off: cd + 32, Size: 4, BE: true},
+							Field{Name: "cd.hashSize", Off: cd + 36, Size: 1}, Field{Name: "cd.hashType", Off: cd + 37, Size: 1}, Field{Name: "cd.pageSizeLog2", Off: cd + 39, Size: 1})
 						f = append(f, Field{Name: "cd.length", Off: cd + 4, Size: 4, BE: true}, Field{Name: "cd.hashOffset", Off: cd + 16, Size: 4, BE: true},
 							Field{Name: "cd.identOffset", Off: cd + 20, Size: 4, BE: true}, Field{Name: "cd.nCodeSlots", Off: cd + 28, Size: 4, BE: true})
 					}
@@ -434,6 +440,8 @@ type Stream struct {
 	Name      string
 	Off, Len  int
 	SuffixOff int // position of a 2-byte compression suffix in the member name (0 = none)
+	// Rebuild, when set, produces the whole corrupted artifact (members that cannot be edited in place)
+	Rebuild func(d []byte, how string) []byte
 }
 
 func (s Stream) Apply(d []byte, how string) bool {
@@ -485,6 +493,51 @@ func StreamsOf(typ string, d []byte) []Stream {
 			}
 			pos += 60 + size + size%2
 		}
+	case "appx":
+		// executable members are digested by a helper goroutine behind a pipe while the request streams them in
+		out = append(out, Stream{Name: "appx.peMember", Rebuild: func(d []byte, how string) []byte {
+			zr, err := zip.NewReader(bytes.NewReader(d), int64(len(d)))
+			if err != nil {
+				return nil
+			}
+			var buf bytes.Buffer
+			zw := zip.NewWriter(&buf)
+			done := false
+			for _, f := range zr.File {
+				lower := strings.ToLower(f.Name)
+				if !done && (strings.HasSuffix(lower, ".exe") || strings.HasSuffix(lower, ".dll")) {
+					rc, _ := f.Open()
+					b, _ := io.ReadAll(rc)
+					rc.Close()
+					switch how {
+					case "garble-early": // not a PE at all, longer than any header read-ahead
+						b = bytes.Repeat([]byte("this is not an executable. "), 400)
+					case "garble-mid": // MZ stub pointing at a broken PE header
+						if len(b) > 0x200 {
+							p := int(binary.LittleEndian.Uint32(b[0x3c:]))
+							if p+40 < len(b) {
+								binary.LittleEndian.PutUint16(b[p+20:], 7) // SizeOfOptionalHeader
+							}
+						}
+					default:
+						return nil
+					}
+					w, _ := zw.CreateHeader(&zip.FileHeader{Name: f.Name, Method: zip.Deflate})
+					w.Write(b)
+					done = true
+					continue
+				}
+				rc, _ := f.OpenRaw()
+				h := f.FileHeader
+				w, _ := zw.CreateRaw(&h)
+				io.Copy(w, rc)
+			}
+			zw.Close()
+			if !done {
+				return nil
+			}
+			return buf.Bytes()
+		}})
 	case "pkg":
 		if len(d) >= 28 && string(d[:4]) == "xar!" {
 			hs := int(d[4])<<8 | int(d[5])
